@@ -54,7 +54,7 @@ func main() {
 	// counts do not depend on the machine): no new stream task is started after
 	// streamBudget, no new channel depth after chanBudget when the projected time
 	// of the level would not fit.  A cap sets exhaustive=false and is reported.
-	streamBudget, chanBudget := 6*time.Minute, 13*time.Minute
+	streamBudget, chanBudget := 6*time.Minute, 13*time.Minute+30*time.Second
 	var caps []string
 
 	// (a) man in the middle, lying endpoints
@@ -152,12 +152,13 @@ func main() {
 		"transitions":                   int(atomic.LoadInt64(&c.evals)),
 		"traces_validated_against_impl": int(atomic.LoadInt64(&c.evals)),
 		"evaluations":                   int(atomic.LoadInt64(&c.evals)),
-		"distinct_nontrivial":           len(cls),
+		"distinct_nontrivial":           int(c.streamNontrivial) + int(c.mitmApplied) + len(ac) + int(cs.states) + len(adm),
+		"distinct_outcome_classes":      len(cls),
 		"rule": "(a) every write-size sequence of length 1.." + fmt.Sprint(maxW) + " and every read-buffer sequence of length 1.." + fmt.Sprint(maxR) +
 			" over {0,1,2,1023,1024,1025,2047,2048,3000} (a read sequence is extended only while its buffers cannot yet hold all written bytes; at full length the buffers are re-used cyclically; what the enumerated buffers leave is fetched with 4096-byte reads), in both directions of a real connection made by the real handshake (at most 64 patterns back to back per connection, a probe frame in each direction after every pattern, violation artefacts carry the connection's history); every tampering kind {bit flip in authenticator/length/payload/padding, swap, replay, drop, insert, cross-session splice, truncate, cut, ephemeral-key substitution, reflection of the opposite direction's unit f-1/f/f+1} at every unit 0..4 for both orders of the ephemeral keys; every lying auth message; " +
 			"(b) breadth-first over all histories of {send(ch,size) 2x8, pump(ch), poll(ch)=isSendPending only, deliver} up to the depth bound with deduplication on (queued sizes, message in transmission+offset, receiver fill, packets on the wire, dead), every transition followed by a drain that must deliver every accepted message; " +
 			"(c) every combination of phase x refuse-list x announced-key x auth_by_ca x validator x non_validator_node_auth x signature kind x self; " +
-			"distinct_nontrivial counts distinct (part, input class, outcome) classes observed",
+			"all enumerated cases are distinct by construction; distinct_nontrivial = stream patterns that write at least one byte + tampering cases in which the delivered ciphertext really differs from the genuine one + lying-auth cases + distinct channel states (by the deduplication key) + admission configurations; distinct_outcome_classes counts the distinct (part, input class, outcome) classes observed (histogram in outcome_classes)",
 		"exhaustive": skipped == "" && len(caps) == 0,
 		"caps":       caps,
 		"bounds": map[string]interface{}{
